@@ -51,6 +51,26 @@ func kernelResolve(dirfd int, p string, followLast bool) (dev, ino uint64, err e
 	return uint64(st.Dev), st.Ino, nil
 }
 
+// kernelReadlink reads the symlink `p` names when resolved with dirfd as the root.
+func kernelReadlink(dirfd int, p string) (string, error) {
+	how := openHow{flags: uint64(unix.O_PATH | unix.O_CLOEXEC | unix.O_NOFOLLOW), resolve: resolveInRoot}
+	bp, e := syscall.BytePtrFromString(p)
+	if e != nil {
+		return "", e
+	}
+	fd, _, en := syscall.Syscall6(sysOpenat2, uintptr(dirfd), uintptr(unsafe.Pointer(bp)), uintptr(unsafe.Pointer(&how)), unsafe.Sizeof(how), 0, 0)
+	if en != 0 {
+		return "", en
+	}
+	defer syscall.Close(int(fd))
+	buf := make([]byte, 4096)
+	n, err := unix.Readlinkat(int(fd), "", buf)
+	if err != nil {
+		return "", err
+	}
+	return string(buf[:n]), nil
+}
+
 type osNode struct {
 	path   string
 	kind   byte // d f L
@@ -94,8 +114,10 @@ func buildTree(base string, ns []osNode) error {
 	os.MkdirAll(base, 0755)
 	sorted := append([]osNode(nil), ns...)
 	sort.SliceStable(sorted, func(a, b int) bool { return strings.Count(sorted[a].path, "/") < strings.Count(sorted[b].path, "/") })
+	outRel := strings.TrimPrefix(filepath.Dir(filepath.Dir(base)), "/")
 	for _, n := range sorted {
-		p := filepath.Join(base, n.path)
+		p := filepath.Join(base, strings.ReplaceAll(n.path, "@OUTREL@", outRel))
+		os.MkdirAll(filepath.Dir(p), 0755)
 		var err error
 		switch n.kind {
 		case 'd':
@@ -139,13 +161,26 @@ func osfsExec(c *Ctx, op string) {
 		return
 	}
 	for _, n := range ns {
+		if strings.HasPrefix(n.path, "@OUTREL@/") && n.kind == 'L' {
+			// the host-side twin of a link that sits at the re-rooted copy of the outside directory
+			os.Symlink("HOSTSIDE", filepath.Join(outer, strings.TrimPrefix(n.path, "@OUTREL@/")))
+		}
 		if !strings.Contains(n.path, "/") {
 			os.WriteFile(filepath.Join(outer, "x", n.path), []byte("DECOY"), 0644)
 			os.WriteFile(filepath.Join(outer, n.path), []byte("DECOY"), 0644)
 		}
 	}
 	// the model sees the link targets as they are on disk
-	mop := strings.ReplaceAll(op, hx("@OUT@"), hx(outer))
+	mop := strings.ReplaceAll(strings.ReplaceAll(op, hx("@OUTREL@"), hx(strings.TrimPrefix(outer, "/"))), hx("@OUT@"), hx(outer))
+	if strings.Contains(op, hx("@OUTREL@")) {
+		// the directories leading to the re-rooted twin exist on disk (MkdirAll): tell the model
+		mf := strings.Fields(mop)
+		segs := strings.Split(strings.TrimPrefix(outer, "/"), "/")
+		for i := 1; i <= len(segs); i++ {
+			mf[1] += "," + hx(strings.Join(segs[:i], "/")) + "=d"
+		}
+		mop = strings.Join(mf, " ")
+	}
 	afs := osfs.New(fs.MustAbsolutePath(base))
 	bfd, err := unix.Open(base, unix.O_PATH|unix.O_DIRECTORY, 0)
 	if err != nil {
@@ -287,7 +322,16 @@ func osfsExec(c *Ctx, op string) {
 			case "stat":
 				_, opErr = afs.Stat(rp)
 			case "lstat":
-				_, opErr = afs.LStat(rp)
+				var m *fs.Metadata
+				m, opErr = afs.LStat(rp)
+				if opErr == nil && m.Type == fs.Type_Symlink {
+					if kt, ke2 := kernelReadlink(bfd, rel); ke2 == nil && kt != m.Linkname {
+						c.PropFail("osfs-differs-from-kernel", fmt.Sprintf("LStat reports link target %q, the kernel's in-root resolution reads %q", m.Linkname, kt), op)
+					}
+					if m.Linkname == "HOSTSIDE" {
+						c.PropFail("osfs-escape", "LStat read the target of a symlink outside the base", op)
+					}
+				}
 			case "open":
 				var fl fs.File
 				fl, opErr = afs.OpenFile(rp, os.O_RDONLY, 0)
@@ -305,7 +349,16 @@ func osfsExec(c *Ctx, op string) {
 			case "readdir":
 				_, opErr = afs.ReadDirNames(rp)
 			case "readlink":
-				_, _, opErr = afs.Readlink(rp)
+				var tg string
+				tg, _, opErr = afs.Readlink(rp)
+				if opErr == nil {
+					if kt, ke2 := kernelReadlink(bfd, rel); ke2 == nil && kt != tg {
+						c.PropFail("osfs-differs-from-kernel", fmt.Sprintf("Readlink reports %q, the kernel's in-root resolution reads %q", tg, kt), op)
+					}
+					if tg == "HOSTSIDE" {
+						c.PropFail("osfs-escape", "Readlink read the target of a symlink outside the base", op)
+					}
+				}
 			}
 		}()
 		after, _ := Snapshot(outer)
@@ -461,6 +514,8 @@ func osfsEngine(c *Ctx) {
 		{{"real", 'd', ""}, {"real/sub", 'd', ""}, {"real/data", 'f', ""}, {"data", 'f', ""}, {"alias", 'L', "real/sub"}, {"real/sub/l", 'L', "../data"}},
 		{{"d", 'd', ""}, {"d/sub", 'd', ""}, {"d/sub/l2", 'L', "../../secret"}, {"secret", 'f', ""}, {"l1", 'L', "/d/sub"}},
 	}
+	// a directory link with an absolute target: its re-rooted twin inside the base holds a link, so does the host directory
+	corpus = append(corpus, []osNode{{"d", 'L', "@OUT@"}, {"@OUTREL@/l1", 'L', "inside-target"}, {"@OUTREL@/f", 'f', ""}, {"inside-target", 'f', ""}})
 	// long acyclic chains: c0 -> c1 -> ... -> c44 -> (a file inside | the secret outside, by absolute path | over-dotted)
 	for _, tail := range []string{"a", "@OUT@/secret", "../../../secret"} {
 		var chain []osNode
@@ -474,7 +529,7 @@ func osfsEngine(c *Ctx) {
 		}
 		corpus = append(corpus, chain)
 	}
-	paths := []string{"c0", "c10", ".", "a", "b", "d", "d/a", "l1", "l2", "l1/a", "l2/a", "d/l1", "d/l1/a", "sub", "sub/a", "f", "f/x", "nope", "l1/..", "d/sub/a", "l1/l2", "deep/er", "secret"}
+	paths := []string{"d/l1", "d/f", "c0", "c10", ".", "a", "b", "d", "d/a", "l1", "l2", "l1/a", "l2/a", "d/l1", "d/l1/a", "sub", "sub/a", "f", "f/x", "nope", "l1/..", "d/sub/a", "l1/l2", "deep/er", "secret"}
 	ops := []string{"stat", "lstat", "open", "mkdir", "chmod", "settimes", "readdir", "readlink"}
 	for k := 0; k < nTrees+len(corpus); k++ {
 		var ns []osNode
